@@ -276,3 +276,182 @@ Proof.
     + destruct (E2 s g st' Hq Hsat) as [Hs Hsp]. destruct (C2 st g _ Hp Hs) as [Hst Ht]. simpl in Ht.
       split; auto. rewrite <- Ht. auto.
 Qed.
+
+(* the same answers as the explicit disjunction ( call(C,true), Then ; call(C,false), Else ) *)
+Lemma if_split_perm : forall (T E : goal) (l : list (bool * store)),
+  Permutation (flat_map (fun p : bool * store => if fst p then T (snd p) else E (snd p)) l)
+              (flat_map T (map snd (filter (fun p : bool * store => Bool.eqb (fst p) true) l)) ++
+               flat_map E (map snd (filter (fun p : bool * store => Bool.eqb (fst p) false) l))).
+Proof.
+  intros T E. induction l as [|[t s] l IH]; simpl; auto.
+  destruct t; simpl.
+  - rewrite <- app_assoc. apply Permutation_app_head. auto.
+  - eapply perm_trans. apply Permutation_app_head. exact IH. apply Permutation_app_swap_app.
+Qed.
+
+Lemma if_equiv_disjunction_l : forall c T E st, Permutation (ans_if c T E st) (ans_disj c T E st).
+Proof. intros. unfold ans_if, ans_disj, disj, conj, call_t. apply if_split_perm. Qed.
+
+(* ------------------------------------------------------------------ the plain disjunction with =/2 and dif/2 *)
+(* a goal covers a specification: every solution of the store satisfying it is a solution of SOME answer (possibly of
+   several), and every solution of an answer is a solution of the store that satisfies it *)
+Definition gcovers (G : goal) (spec : valuation -> Prop) : Prop :=
+  (forall st g, sat g st -> spec g -> exists st', In st' (G st) /\ sat g st') /\
+  (forall st g st', In st' (G st) -> sat g st' -> sat g st /\ spec g).
+
+Lemma gexact_covers : forall G s, gexact G s -> gcovers G s.
+Proof. intros G s [H1 H2]. split; auto. intros st g Hs Hsp. apply exactly1_exists. auto. Qed.
+
+Lemma covers_ext : forall G s1 s2, (forall g, s1 g <-> s2 g) -> gcovers G s1 -> gcovers G s2.
+Proof.
+  intros G s1 s2 E [H1 H2]. split.
+  - intros st g Hs Hsp. apply H1; auto. apply E. auto.
+  - intros st g st' Hin Hs. destruct (H2 st g st' Hin Hs). split; auto. apply E. auto.
+Qed.
+
+Lemma conj_covers : forall G H s1 s2, gcovers G s1 -> gcovers H s2 -> gcovers (conj G H) (fun g => s1 g /\ s2 g).
+Proof.
+  intros G H s1 s2 [G1 G2] [H1 H2]. unfold conj. split.
+  - intros st g Hs [Hs1 Hs2]. destruct (G1 st g Hs Hs1) as [st1 [Hin1 Hsat1]].
+    destruct (H1 st1 g Hsat1 Hs2) as [st2 [Hin2 Hsat2]]. exists st2. split; auto. apply in_flat_map. eauto.
+  - intros st g st' Hin Hs. apply in_flat_map in Hin. destruct Hin as [st1 [Hin1 Hin2]].
+    destruct (H2 st1 g st' Hin2 Hs) as [Hs1 Hsp2]. destruct (G2 st g st1 Hin1 Hs1). auto.
+Qed.
+
+Lemma disj_covers : forall G H s1 s2, gcovers G s1 -> gcovers H s2 -> gcovers (disj G H) (fun g => s1 g \/ s2 g).
+Proof.
+  intros G H s1 s2 [G1 G2] [H1 H2]. unfold disj. split.
+  - intros st g Hs [Hs1|Hs2].
+    + destruct (G1 st g Hs Hs1) as [st1 [Hin1 Hsat1]]. exists st1. split; auto. apply in_or_app. auto.
+    + destruct (H1 st g Hs Hs2) as [st1 [Hin1 Hsat1]]. exists st1. split; auto. apply in_or_app. auto.
+  - intros st g st' Hin Hs. apply in_app_or in Hin. destruct Hin as [Hin|Hin].
+    + destruct (G2 st g st' Hin Hs). auto.
+    + destruct (H2 st g st' Hin Hs). auto.
+Qed.
+
+Lemma pos_neg_covers : forall c, gcovers (pos c) (fun g => ceval g c = true) /\ gcovers (neg c) (fun g => ceval g c = false).
+Proof.
+  induction c as [a b|a b|c [IHc1 IHc2] d [IHd1 IHd2]|c [IHc1 IHc2] d [IHd1 IHd2]]; simpl.
+  - split.
+    + eapply covers_ext; [|apply gexact_covers, unify_exact_l]. intro g. simpl. symmetry. apply term_eqb_eq.
+    + eapply covers_ext; [|apply gexact_covers, dif_exact_l]. intro g. simpl. symmetry. apply term_eqb_false.
+  - split.
+    + eapply covers_ext; [|apply gexact_covers, dif_exact_l]. intro g. simpl. rewrite negb_true_iff. symmetry. apply term_eqb_false.
+    + eapply covers_ext; [|apply gexact_covers, unify_exact_l]. intro g. simpl. rewrite negb_false_iff. symmetry. apply term_eqb_eq.
+  - split.
+    + eapply covers_ext; [|apply conj_covers; eauto]. intro g. simpl. symmetry. apply andb_true_iff.
+    + eapply covers_ext; [|apply disj_covers; eauto]. intro g. simpl. symmetry. apply andb_false_iff.
+  - split.
+    + eapply covers_ext; [|apply disj_covers; eauto]. intro g. simpl. symmetry. apply orb_true_iff.
+    + eapply covers_ext; [|apply conj_covers; eauto]. intro g. simpl. symmetry. apply orb_false_iff.
+Qed.
+
+Lemma plain_covers_l : forall c T E sT sE, gexact T sT -> gexact E sE ->
+  gcovers (ans_plain c T E) (fun g => if ceval g c then sT g else sE g).
+Proof.
+  intros c T E sT sE HT HE. destruct (pos_neg_covers c) as [P N]. unfold ans_plain.
+  eapply covers_ext; [|apply disj_covers; apply conj_covers; [exact P|apply gexact_covers; exact HT|exact N|apply gexact_covers; exact HE]].
+  intro g. simpl. destruct (ceval g c); split; intro H.
+  - destruct H as [[_ H]|[H _]]; auto. discriminate.
+  - left. auto.
+  - destruct H as [[H _]|[_ H]]; auto. discriminate.
+  - right. auto.
+Qed.
+
+Lemma plain_same_solutions_l : forall c T E sT sE, gexact T sT -> gexact E sE -> forall st g, sat g st ->
+  ((exists st', In st' (ans_if c T E st) /\ sat g st') <-> (exists st', In st' (ans_plain c T E st) /\ sat g st')).
+Proof.
+  intros c T E sT sE HT HE st g Hs.
+  destruct (gexact_covers _ _ (if_exact_l c T E sT sE HT HE)) as [I1 I2].
+  destruct (plain_covers_l c T E sT sE HT HE) as [P1 P2].
+  split; intros [st' [Hin Hsat]].
+  - apply P1; auto. eapply I2; eauto.
+  - apply I1; auto. eapply P2; eauto.
+Qed.
+
+(* the instance run by the correspondence: Then is R = then, Else is R = else *)
+Lemma run_if_exact_l : forall c, gexact (run_core (KIf c)) (fun g => g o1 = if ceval g c then a_then else a_else).
+Proof.
+  intro c. simpl. destruct (if_exact_l c _ _ _ _ (unify_exact_l (Var o1) a_then) (unify_exact_l (Var o1) a_else)) as [H1 H2].
+  split.
+  - intros st g Hs Hsp. apply H1; auto. simpl. destruct (ceval g c); auto.
+  - intros st g st' Hin Hsat. destruct (H2 st g st' Hin Hsat) as [Hs Hsp]. split; auto. simpl in Hsp. destruct (ceval g c); auto.
+Qed.
+
+(* ------------------------------------------------------------------ ground lists *)
+Lemma apply_ground : forall s t, vars t = [] -> apply s t = t.
+Proof. intros s t H. rewrite apply_inst. apply inst_ground. auto. Qed.
+
+Lemma eq_t_ground : forall a b st s, solve (fst st) = Some s -> vars a = [] -> vars b = [] ->
+  eq_t a b st = [(term_eqb a b, st)].
+Proof.
+  intros a b st s Hs Ha Hb. unfold eq_t. rewrite Hs. unfold identical. rewrite (apply_ground s a Ha), (apply_ground s b Hb).
+  destruct (term_eqb a b) eqn:E; auto.
+  assert (Hu : unify_g a b st = []).
+  { unfold unify_g, consistent. destruct (solve (fst st ++ [(a, b)])) as [s'|] eqn:Hs'; auto.
+    exfalso. destruct (solve_some _ _ Hs') as [U _].
+    assert (Hab : inst (sfun s') a = inst (sfun s') b) by (apply U; apply in_or_app; right; left; auto).
+    rewrite (inst_ground _ a Ha), (inst_ground _ b Hb) in Hab. apply term_eqb_false in E. contradiction. }
+  rewrite Hu. auto.
+Qed.
+
+Lemma term_eqb_sym : forall a b, term_eqb a b = term_eqb b a.
+Proof. intros a b. apply bool_eq_iff. rewrite !term_eqb_eq. split; auto. Qed.
+
+Lemma tfilter_ground : forall x l st s, solve (fst st) = Some s -> vars x = [] -> (forall e, In e l -> vars e = []) ->
+  tfilter_m x l st = [(filter (term_eqb x) l, st)].
+Proof.
+  intros x l st s Hs Hx. induction l as [|e l IH]; simpl; intro Hl; auto.
+  rewrite (eq_t_ground x e st s Hs Hx) by (apply Hl; auto). simpl. rewrite IH by (intros; apply Hl; auto). simpl.
+  destruct (term_eqb x e); auto.
+Qed.
+
+Lemma tfilter_spec_l : forall x l st s, solve (fst st) = Some s -> vars x = [] -> (forall e, In e l -> vars e = []) ->
+  run_core (KTfilter x l) st = unify_g (Var o1) (tlist (filter (term_eqb x) l)) st.
+Proof.
+  intros x l st s Hs Hx Hl. simpl. rewrite (tfilter_ground x l st s Hs Hx Hl). simpl. apply app_nil_r.
+Qed.
+
+Lemma memberd_ground : forall e l st s, solve (fst st) = Some s -> vars e = [] -> (forall x, In x l -> vars x = []) ->
+  memberd_m e l st = [(existsb (term_eqb e) l, st)].
+Proof.
+  intros e l st s Hs He. induction l as [|x l IH]; simpl; intro Hl; auto.
+  rewrite (eq_t_ground x e st s Hs) by (auto; apply Hl; auto). simpl. rewrite (term_eqb_sym e x).
+  destruct (term_eqb x e); simpl; auto. rewrite IH by (intros; apply Hl; auto). auto.
+Qed.
+
+Lemma memberd_t_spec_l : forall e l st s, solve (fst st) = Some s -> vars e = [] -> (forall x, In x l -> vars x = []) ->
+  run_core (KMemberd e l) st = unify_g (Var o1) (tbool (existsb (term_eqb e) l)) st.
+Proof.
+  intros e l st s Hs He Hl. simpl. rewrite (memberd_ground e l st s Hs He Hl). simpl. apply app_nil_r.
+Qed.
+
+Lemma tmember_ground : forall x l st s, solve (fst st) = Some s -> vars x = [] -> (forall e, In e l -> vars e = []) ->
+  tmember_m x l st = if existsb (term_eqb x) l then [st] else [].
+Proof.
+  intros x l st s Hs Hx. induction l as [|e l IH]; simpl; intro Hl; auto.
+  rewrite (eq_t_ground x e st s Hs Hx) by (apply Hl; auto). simpl.
+  destruct (term_eqb x e); simpl; auto. rewrite IH by (intros; apply Hl; auto). apply app_nil_r.
+Qed.
+
+(* ------------------------------------------------------------------ the comparison functions *)
+Lemma dif_entails_refl : forall p, dif_entails p p = true.
+Proof. intros [a b]. apply dif_entails_spec_l. auto. Qed.
+
+Lemma difs_cover_refl : forall D, difs_cover D D = true.
+Proof.
+  intro D. unfold difs_cover. apply forallb_forall. intros q Hq. apply existsb_exists. exists q. split; auto. apply dif_entails_refl.
+Qed.
+
+Lemma tlist_eqb_refl : forall l, tlist_eqb l l = true.
+Proof. induction l as [|x l IH]; simpl; auto. unfold tlist_eqb in *. simpl. rewrite term_eqb_refl, IH. auto. Qed.
+
+Lemma answer_eqb_refl : forall x, answer_eqb x x = true.
+Proof. intro x. unfold answer_eqb, difs_equiv. rewrite tlist_eqb_refl, difs_cover_refl. auto. Qed.
+
+Lemma same_answers_refl : forall l, same_answers l l = true.
+Proof. induction l as [|x l IH]; simpl; auto. rewrite answer_eqb_refl. auto. Qed.
+
+Lemma check_case_spec_l : forall pre k post impl, check_case pre k post impl = true <->
+  chk_model pre k post impl = true /\ chk_ground pre k post impl = true.
+Proof. intros. unfold check_case. apply andb_true_iff. Qed.
